@@ -69,7 +69,7 @@ def gr_case(draw, size="mixed"):
     want = draw(C.pick(allowed))
     d = draw(C.pick([2, 3]))
     K = draw(C.pick([2, 2, 3, 3, 4, 5, 6] + ([] if want == "swap" else [1, 1])))
-    N, bulk = draw(C.size_st((max(2, K), 16), size))
+    N, bulk = draw(C.size_st((max(2, K), 16), size, share=12))
     if bulk and N > 133 and want != "swap":     # cost: the quinary selectors are evaluated for every centre particle
         K = min(K, 2)
     cell = pick_cell(draw, d, 2.0, 20.0)
@@ -321,9 +321,9 @@ def check_sq(case):
 
 
 @st.composite
-def neigh_case(draw, size="mixed"):
+def neigh_case(draw, size="mixed", mode=None):
     d = draw(C.pick([2, 3]))
-    mode = draw(C.pick(["nn", "nn", "cutoff", "cutoff_type"]))
+    mode = draw(C.pick(["nn", "nn", "cutoff", "cutoff_type"])) if mode is None else mode
     allowed = ["translate", "lattice", "perm", "axes", "swap", "rotate"]
     want = draw(C.pick(allowed))
     K = draw(st.integers(2, 3)) if want == "swap" else draw(st.integers(1, 3))
@@ -468,7 +468,7 @@ def s2_case(draw, size="mixed"):
     want = draw(C.pick(allowed))
     d = draw(C.pick([2, 3]))
     K = draw(st.integers(2 if want == "swap" else 1, 3))
-    N, bulk = draw(C.size_st((max(4, K), 18), size, boundary_hi=133, large=(199, 260)))
+    N, bulk = draw(C.size_st((max(4, K), 18), size, boundary_hi=133, large=(199, 260), share=12))
     rho = draw(st.sampled_from([0.6, 1.0, 2.0]))
     Lm = (N / rho) ** (1.0 / d)
     cell = pick_cell(draw, d, 0.75 * Lm, 1.3 * Lm)
